@@ -2,10 +2,13 @@
 From V.lib Require Import Base.
 From V.c13 Require Import C13Spec C13Model.
 From V.c15 Require Import C15Model C15Spec.
+From V.c15 Require Import C15HevcModel C15HevcSpec.
 Require Import ExtrOcamlBasic.
 Separate Extraction
   parse_sps_er parse_sps_br flat_sps
   nalu_sps expected_sps sps_valid sps_offsets_zero
   parse_pps_er parse_pps_br flat_pps nalu_pps expected_pps pps_valid
   parse_slice_er parse_slice_br flat_slice nalu_slice expected_slice slice_valid
-  eff_l0 eff_l1 slice_group_change_cycle_bits sl_has_fmo_cycle eff_chroma_format_idc.
+  eff_l0 eff_l1 slice_group_change_cycle_bits sl_has_fmo_cycle eff_chroma_format_idc
+  hparse_sps_er hparse_sps_br flat_hsps hnalu_sps expected_hsps hsps_valid
+  derive_one derive_all d_num_delta d_num_used hrps_valid expected_himage_size.
